@@ -345,3 +345,52 @@ def check_C20(tier, seed):
 
 
 CHECKS["C20"] = check_C20
+
+
+# ---------------------------------------------------------------------- C08
+def check_C08(tier, seed):
+    run = Run("C08", tier, seed)
+    quick = tier == "quick"
+    run.rule = ("behaviours: every interleaving (to the depth bound) of entering/leaving symbolic_mode(), rule_mode(), "
+                "symbolic_mode(q), rule_mode(q) and `with q:` blocks (normal and exceptional exit) with creating, advancing, "
+                "closing, dropping and draining result iterators, exported by TLC and replayed; plus seeded random walks; after "
+                "every step the observed mode, context-stack depth, @symbol construction, @predicate call and operator "
+                "behaviour must equal what the open blocks prescribe; non-trivial = a behaviour in which an iterator is "
+                "advanced or finalised at a different block depth than it was created at")
+    run.assumptions = ["one thread, one contextvars context", "blocks are exited in LIFO order (with-statement discipline)"]
+    base = dict(NIter=2, NRows=2, IterHoldsMode=False)
+    # (1) the mechanism (context variable with saved previous values, per-step save/restore in iterators) keeps the
+    #     mode equal to what the open blocks say, for every interleaving
+    run.mc("Mode", "mech", constants=dict(base, MaxBlocks=3, MaxLen=8 if quick else 11),
+           invariants=("Confined", "BlockFramesMatch", "OutsideIsNone"), constraint="Bound", view="View")
+    # (2) behaviours
+    behs = run.export("Mode", "export", "BEH", constants=dict(base, MaxBlocks=2, MaxLen=4 if quick else 5),
+                      invariants=("Export",), constraint="Bound", count=False)
+    behs += run.export("Mode", "walks", "BEH", constants=dict(base, NIter=2, MaxBlocks=3, MaxLen=14 if quick else 30),
+                       invariants=("Export",), constraint="Bound", simulate=1500 if quick else 40000,
+                       depth=15 if quick else 31, count=False)
+    cases = [{"id": k + 1, "family": "mode", "niter": 2, "nrows": 2, "evs": b} for k, b in enumerate(behs)]
+    traces = run.replay(cases)
+    rej = run.validate_with("TraceMode", traces, dict(base))
+    by_id = {c["id"]: c for c in cases}
+    for t in traces:
+        depth, born = 0, {}
+        for e in t["evs"]:
+            if e["op"] == "enter":
+                depth += 1
+            elif e["op"] == "exit":
+                depth -= 1
+            elif e["op"] == "new":
+                born[e["i"]] = depth
+            elif e["op"] in ("next", "close", "drop", "drain") and born.get(e["i"]) != depth and t["id"] not in rej:
+                run.nontrivial.add(digest([[x["op"], x["kind"], x["how"], x["i"]] for x in t["evs"]]))
+                break
+        if t["id"] in rej:
+            run.violation(by_id[t["id"]], t, rej[t["id"]], family="mode")
+    run.samples = [{"behaviour": [[x["op"], x["kind"], x["how"], x["i"]] for x in t["evs"]],
+                    "observed": [[x["mode"], x["depth"], x["sym"], x["pred"], x["oper"], x["res"]] for x in t["evs"]]}
+                   for t in traces[:2]]
+    return run.finish()
+
+
+CHECKS["C08"] = check_C08
